@@ -38,9 +38,12 @@ const (
 // ---- script --------------------------------------------------------------------------------
 
 type schedSpec struct {
-	K       string  `json:"k"`           // every | inst
-	D       int64   `json:"d,omitempty"` // every: duration asked for (ns)
-	L       []int64 `json:"l,omitempty"` // inst: activation instants (ns since base), ascending
+	K       string  `json:"k"`             // every | inst | spec
+	P       int64   `json:"p,omitempty"`   // spec: period (ns): one hour or 24 hours
+	Ph      int64   `json:"ph,omitempty"`  // spec: phase (ns) within the period: minute (and hour)
+	Off     int64   `json:"off,omitempty"` // spec: zone offset + time base (ns), filled in by the runner
+	D       int64   `json:"d,omitempty"`   // every: duration asked for (ns)
+	L       []int64 `json:"l,omitempty"`   // inst: activation instants (ns since base), ascending
 	AddFunc bool    `json:"addfunc,omitempty"`
 	Block   bool    `json:"block,omitempty"` // the job blocks until a "ret" op
 	// Act: what the job does ON ITS OWN CRON at its first invocation (the job callback is a seam:
@@ -77,6 +80,7 @@ type op struct {
 
 type c05Input struct {
 	T0    int64 `json:"t0"`
+	Loc   int   `json:"loc,omitempty"`   // the Cron's location: fixed zone, offset in seconds east of UTC (the clock hands out UTC times)
 	Procs int   `json:"procs,omitempty"` // 1: the script runs with GOMAXPROCS(1)
 	Ops   []op  `json:"ops"`
 }
@@ -94,9 +98,23 @@ func (s instSchedule) Next(t time.Time) time.Time {
 	return time.Time{}
 }
 
+const hourNs = int64(3600) * 1_000_000_000
+
+// specString: the 5-field crontab line (no TZ=: read in the zone of the time given to Next)
+func (s *schedSpec) specString() string {
+	min := s.Ph / (60 * 1_000_000_000) % 60
+	if s.P == hourNs {
+		return fmt.Sprintf("%d * * * *", min)
+	}
+	return fmt.Sprintf("%d %d * * *", min, s.Ph/hourNs%24)
+}
+
 func (s *schedSpec) coq() string {
 	if s.K == "every" {
 		return "(Every " + hx.CoqZ(s.D) + ")"
+	}
+	if s.K == "spec" {
+		return fmt.Sprintf("(Wall %s %s %s)", hx.CoqZ(s.Off), hx.CoqZ(s.P), hx.CoqZ(s.Ph))
 	}
 	return "(Instants " + hx.CoqZs(s.L) + ")"
 }
@@ -152,6 +170,7 @@ type runner struct {
 	acts         []actDone
 	settleLen    int
 	exp0         int64
+	loc          int
 	heldNow      bool
 	progress     atomic.Int64
 	batchEvents  int // events in the batch of log records collected last
@@ -172,14 +191,19 @@ type runner struct {
 	lastSnap []cron.Entry
 }
 
-func newRunner(t0 int64) *runner {
+func newRunner(t0 int64, loc int) *runner {
 	r := &runner{byID: map[int64]*token{}, remLogged: map[int64]int{}, remIssued: map[int64]int{},
 		addLogged: map[int64]bool{}}
 	r.exp0 = expiries.Load()
 	r.clk = newVclock(t0)
 	r.log = &glog{clk: r.clk}
 	r.clk.log = r.log
-	r.c = cron.New(cron.WithClock(r.clk), cron.WithLogger(r.log), cron.WithLocation(time.UTC))
+	r.loc = loc
+	zone := time.UTC
+	if loc != 0 {
+		zone = time.FixedZone("verif", loc)
+	}
+	r.c = cron.New(cron.WithClock(r.clk), cron.WithLogger(r.log), cron.WithLocation(zone))
 	return r
 }
 
@@ -433,7 +457,6 @@ func (r *runner) collect() {
 	recs := r.log.slice(r.logPos)
 	r.logPos += len(recs)
 	jobs := r.newJobs()
-	jobsPlaced := len(jobs) == 0
 	stopIdx := 0
 	flush := func(idx int, after bool) {
 		keep := r.pending[:0]
@@ -483,9 +506,17 @@ func (r *runner) collect() {
 			if x.now != nil {
 				w = *x.now
 			}
+			// the job starts of THIS wake-up: one per "run" record, matched by entry id (several
+			// wake-ups can be in one batch: a timer armed with a non-positive duration fires at once)
 			var js []jobStart
-			if !jobsPlaced {
-				js, jobsPlaced = jobs, true
+			for _, g := range group {
+				for k, j := range jobs {
+					if j.tok >= 0 && j.tok < len(r.tokens) && r.tokens[j.tok].id == g.entry {
+						js = append(js, j)
+						jobs[k].tok = -1 - j.tok // taken
+						break
+					}
+				}
 			}
 			r.nWake++
 			r.nJobs += len(js)
@@ -538,10 +569,16 @@ func (r *runner) collect() {
 	r.pending = nil
 	r.stopObs = nil
 	r.actItems(base + len(recs))
-	if !jobsPlaced {
-		// job starts without a wake-up in this batch: attach them to a context poll so that the
-		// oracle sees them
-		r.emit("CtxPoll", "CtxPoll", "OCtxs "+r.ctxList(), jobs, r.lastTm)
+	var stray []jobStart
+	for _, j := range jobs {
+		if j.tok >= 0 {
+			stray = append(stray, j)
+		}
+	}
+	if len(stray) > 0 {
+		// job starts that no "run" record of this batch accounts for: attach them to a context
+		// poll so that the oracle sees them
+		r.emit("CtxPoll", "CtxPoll", "OCtxs "+r.ctxList(), stray, r.lastTm)
 	}
 	r.emitReturns()
 }
@@ -601,8 +638,26 @@ func (r *runner) waitJobs() {
 				nb++
 			}
 		}
-		return r.returned >= nb+r.released
+		need := nb + r.released
+		if r.heldNow {
+			need -= r.actsStarted - r.actsDone // a job stuck in its call has not returned either
+		}
+		return r.returned >= need
 	}, liveWait)
+	if os.Getenv("C05_DEBUG") != "" {
+		r.jmu.Lock()
+		nb := 0
+		for _, j := range r.jstarts {
+			if j.tok < len(r.tokens) && !r.tokens[j.tok].spec.Block {
+				nb++
+			}
+		}
+		if len(r.jstarts) < runs || r.actsDone < r.actsStarted || r.returned < nb+r.released {
+			fmt.Fprintf(os.Stderr, "waitJobs: starts=%d runs=%d acts=%d/%d returned=%d nb=%d released=%d held=%v\n",
+				len(r.jstarts), runs, r.actsDone, r.actsStarted, r.returned, nb, r.released, r.heldNow)
+		}
+		r.jmu.Unlock()
+	}
 }
 
 // JobRet items for every job return seen and not yet reported.
@@ -698,6 +753,14 @@ func (r *runner) quiesce() ([]cron.Entry, bool) {
 // ---- API calls -----------------------------------------------------------------------------
 
 func (r *runner) newToken(s schedSpec) *token {
+	if s.K == "spec" {
+		// wall clock of the Cron's location, on the harness's time base
+		s.Off = vbase.UnixNano() + int64(r.loc)*1_000_000_000
+		if s.P != hourNs {
+			s.P = 24 * hourNs
+		}
+		s.Ph = s.Ph / (60 * 1_000_000_000) * (60 * 1_000_000_000) % s.P
+	}
 	tk := &token{spec: s}
 	r.jmu.Lock()
 	r.tokens = append(r.tokens, tk)
@@ -712,6 +775,12 @@ func (r *runner) rawSched(tk *token, idx int) {
 	case tk.spec.K == "every" && tk.spec.AddFunc:
 		var err error
 		id, err = r.c.AddFunc(fmt.Sprintf("@every %dns", tk.spec.D), job)
+		if err != nil {
+			r.notes = append(r.notes, "AddFunc: "+err.Error())
+		}
+	case tk.spec.K == "spec":
+		var err error
+		id, err = r.c.AddFunc(tk.spec.specString(), job)
 		if err != nil {
 			r.notes = append(r.notes, "AddFunc: "+err.Error())
 		}
@@ -912,6 +981,15 @@ func (r *runner) do(o op) {
 			r.emit("Tick", "Tick "+hx.CoqZ(r.clk.Peek()), "ONone", r.newJobs(), r.lastTm)
 			return
 		}
+		r.afterEvent()
+	case "lag":
+		// the clock is at o.To when the scheduler gets the tick, whose value is older by o.Extra
+		fired := r.clk.AdvanceLag(o.To, o.Extra)
+		if fired == 0 {
+			r.emit("Tick", "Tick "+hx.CoqZ(r.clk.Peek()), "ONone", r.newJobs(), r.lastTm)
+			return
+		}
+		r.emit("Lag", "Lag "+hx.CoqZ(r.clk.Peek()), "ONone", nil, r.lastTm)
 		r.afterEvent()
 	case "race":
 		r.race(o)
